@@ -83,7 +83,8 @@ SPECS["C12"] = dict(level="exploration", assumptions=HIST_ASSUME[:2] + ["'exactl
 
 SPECS["C15"] = dict(binary="rigv", pkg="rigv", test="TestC15", level="exploration", assumptions=HIST_ASSUME, parts=[
         dict(name="jobs", binary="rigv", pkg="rigv", test="TestC15", shards={"quick": 16, "thorough": 16}),
-        dict(name="svc", binary="rigv", pkg="rigv", test="TestC15svc", race=True, shards={"quick": 8, "thorough": 16})],
+        dict(name="svc", binary="rigv", pkg="rigv", test="TestC15svc", race=True, shards={"quick": 8, "thorough": 16}),
+        dict(name="stream", binary="rigv", pkg="rigv", test="TestC15stream", race=True, shards={"quick": 8, "thorough": 16})],
     rule= "three monitors over seeded histories: (a) every prune/expire job (min age 0 / 1 s / 1 h, batch 1 / 2 / 100, spliced at random positions) is followed by a full table diff checked against the job's documented deletion criterion; (b) twin pairs - the same seeded history (probe-sized pulls, no seeks) run with the prune jobs skipped and with them executed must give identical client-visible traces (operation, status, message ids, attempts); (c) after everything was deleted and 8 days passed, rows+2 rounds of all jobs in random order must leave no delivery, message, or soft-deleted row behind and no failing job. (d) twin pairs with the real prune *service loops* (services/prune-common.go Start, own tickers in virtual time, min age 2 s, batch 3) running in the background versus not running. Non-trivial = at least one row was deleted by a job; distinct = distinct operation trace.",
     min_relevant={"quick": 200, "thorough": 2000})
 
